@@ -24,6 +24,9 @@ read the wrong number of bits:
   C10.padside   Value::left / Value::right put the padding between the tag bit and the payload, where the accessors
                 (C10.accessor) look for it: in their call of the concatenation helper product(a, wa, b, wb) the absent
                 (None) part of width max(wl, wr) - w comes first and the payload second
+  C10.word      a Word pairs a value with the exponent n of its type 2^(2^n): built from Value::uK it carries n = log2 K,
+                built as the product of two words it carries n + 1, copied from a word it carries that word's n
+                (the encoder writes the length prefix from n and the payload from the value)
   C10.rebrand   a Value / ValueRef built around the byte buffer of an existing value (`inner: x.inner`) takes its type from
                 that same value (`x.ty`, or a component of it obtained through as_sum / as_product): re-labelling a buffer
                 with a type that comes from anywhere else (e.g. the pruner's *target* type when only the widths agree)
@@ -88,7 +91,9 @@ def run(ctx, rep):
     rep.rule("C10.rebrand", "a value literal that reuses the buffer of a value x takes its type from x.ty (or a component of it)")
     rep.rule("C10.lifo", "product rebuild: left sub-task pushed last (processed first), right result popped first")
     rep.rule("C10.padside", "Value::left/right concatenate (padding, payload) in that order")
+    rep.rule("C10.word", "Word literals pair a value with the exponent of its own width")
     sumtype(F, rep)
+    words(F, rep)
     lifo(F, rep)
     padside(F, rep)
     rebrand(F, rep)
@@ -416,6 +421,59 @@ def padflag(F, rep):
         got = eval_flag(f, "has_padding", {}, "=")
         rep.ok("C10.padflag", "unit", "flag=%s (any value is sound: unit has no bits)" % got)
     rep.floor("C10.padflag", rep.instances("C10.padflag"), 25)
+
+
+def words(F, rep):
+    n = 0
+    for f in sorted(F.fns.values(), key=lambda x: x.path):
+        if not f.path.startswith("simplicity::"):
+            continue
+        T = None
+        for b in f.rpo():
+            for st in f.blocks[b]["s"]:
+                if not (st[0] == "=" and st[2].get("k") == "agg" and st[2].get("agg") == "adt" and st[2].get("adt") == "simplicity::value::Word"):
+                    continue
+                T = T or Terms(f)
+                d = dict(zip(st[2].get("fields") or [], [T.operand(o) for o in st[2]["ops"]]))
+                v, nn = d.get("value"), d.get("n")
+                if v is None or nn is None:
+                    continue
+                key = fm.short(f.path)
+                where = "%s:%s" % (f.file, st[3] if len(st) > 3 else f.line)
+                m = re.fullmatch(r"simplicity::value::Value::u(\d+)", v[1]) if v[0] == "call" else None
+                if m:
+                    n += 1
+                    k = int(m.group(1))
+                    want = k.bit_length() - 1
+                    if nn[0] == "int" and nn[1] == want and 1 << want == k:
+                        rep.ok("C10.word", "%s: u%d with n = %d" % (key, k, want), None)
+                    else:
+                        rep.violation("C10.word", key + ":n", "%s pairs a %d-bit value with n = %s; 2^(2^n) = %d needs n = %d"
+                                      % (f.path, k, expr.canon(nn), k, want), where)
+                elif v[0] == "call" and v[1] == VALUE + "product" and len(v[3]) == 2:
+                    parts = [a for a in v[3] if isinstance(a, tuple) and a[0] == "field" and a[2] == "value"]
+                    if len(parts) != 2:
+                        continue
+                    n += 1
+                    base_n = ("field", parts[0][1], "n")
+                    t = nn
+                    while isinstance(t, tuple) and t and t[0] == "field" and t[2] == "0" and t[1][0] == "bin":
+                        t = t[1]
+                    okk = isinstance(t, tuple) and t[0] == "bin" and t[1] in ("Add", "AddWithOverflow", "AddUnchecked") and (
+                        (t[2] == base_n and t[3][:2] == ("int", 1)) or (t[3] == base_n and t[2][:2] == ("int", 1)))
+                    if okk:
+                        rep.ok("C10.word", "%s: product of two words with n + 1" % key, None)
+                    else:
+                        rep.violation("C10.word", key + ":n", "%s builds a word from the product of two 2^(2^n)-bit words but stores n = %s; the product "
+                                      "has 2^(2^(n+1)) bits, so n + 1 is needed" % (f.path, expr.canon(nn)), where)
+                elif isinstance(v, tuple) and v[0] == "field" and v[2] == "value":
+                    n += 1
+                    if nn == ("field", v[1], "n"):
+                        rep.ok("C10.word", "%s: copy of a word" % key, None)
+                    else:
+                        rep.violation("C10.word", key + ":n", "%s copies the value of a word but stores n = %s" % (f.path, expr.canon(nn)), where)
+    rep.count("word_literals_judged", n)
+    rep.floor("C10.word", n, 10)
 
 
 def _pop_site(t):
